@@ -302,7 +302,13 @@ pub fn gen_history(seed: u64, idx: u64) -> Vec<FfiOp> {
                 ops.push(FfiOp::DecDtor { slot });
                 decs[slot] = None;
             }
-            let (content, content_kind) = gen_content(&mut g, false);
+            let (mut content, mut content_kind) = gen_content(&mut g, false);
+            let others: Vec<usize> = (0..NSLOTS).filter(|&s| s != slot && decs[s].is_some()).collect();
+            if !others.is_empty() && g.chance(2, 5) {
+                let o = *g.pick(&others);
+                content = BitMat::from_sparse(&decs[o].as_ref().unwrap().h).to_alist().into_bytes();
+                content_kind = "valid (same code as another live handle)".into();
+            }
             let source = match g.below(12) {
                 0 => Source::Missing,
                 1 => Source::Directory,
@@ -321,7 +327,14 @@ pub fn gen_history(seed: u64, idx: u64) -> Vec<FfiOp> {
                 ops.push(FfiOp::EncDtor { slot });
                 encs[slot] = None;
             }
-            let (content, content_kind) = gen_content(&mut g, true);
+            let (mut content, mut content_kind) = gen_content(&mut g, true);
+            // sometimes the same code as another live encoder handle, with its own puncturing
+            let others: Vec<usize> = (0..NSLOTS).filter(|&s| s != slot && encs[s].is_some()).collect();
+            if !others.is_empty() && g.chance(2, 5) {
+                let o = *g.pick(&others);
+                content = BitMat::from_sparse(&encs[o].as_ref().unwrap().h).to_alist().into_bytes();
+                content_kind = "valid (same code as another live handle)".into();
+            }
             let source = match g.below(12) {
                 0 => Source::Missing,
                 1 => Source::Directory,
